@@ -6,6 +6,8 @@ pub mod c05;
 pub mod makers;
 pub mod c06;
 pub mod c07;
+pub mod c08;
+pub mod c09;
 pub mod c10;
 pub mod c11;
 pub mod c17;
@@ -30,6 +32,8 @@ pub fn run(id: &str, reg: &dyn Registry, ctx: &Ctx) -> Option<Outcome> {
         "C05" => Some(c05::run(reg, ctx)),
         "C06" => Some(c06::run(reg, ctx)),
         "C07" => Some(c07::run(reg, ctx)),
+        "C08" => Some(c08::run(reg, ctx)),
+        "C09" => Some(c09::run(reg, ctx)),
         "C10" => Some(c10::run(reg, ctx)),
         "C11" => Some(c11::run(reg, ctx)),
         "C17" => Some(c17::run(reg, ctx)),
